@@ -11,6 +11,54 @@ def nontrivial(c):
     return any(s["k"] == "const" for s in mast.all_stmts(c["prog"])) or c["fam"].endswith(("runtime", "inlined"))
 
 
+LEN_VALUES = [("0", 0), ("5 - 5", 0), ("-1", -1), ("2 - 3", -1), ("1", 1), ("3 - 2", 1), ("7", 7), ("32767", 32767), ("16383 * 2 + 1", 32767)]
+LEN_CTX = {
+    "dim": 'DIM S AS STRING * %s\r\nS = "abc"\r\nPRINT "["; S; "]"; LEN(S)\r\n',
+    "dim-shared": 'DIM SHARED S AS STRING * %s\r\nS = "abc"\r\nPRINT "["; S; "]"; LEN(S)\r\n',
+    "dim-array": 'DIM S(2) AS STRING * %s\r\nS(1) = "abc"\r\nPRINT "["; S(1); "]"; LEN(S(1))\r\n',
+    "redim": 'REDIM S(2) AS STRING * %s\r\nS(1) = "abc"\r\nPRINT "["; S(1); "]"; LEN(S(1))\r\n',
+    "type": 'TYPE T\r\n  F AS STRING * %s\r\n  K AS INTEGER\r\nEND TYPE\r\nDIM R AS T\r\nR.F = "abc"\r\nPRINT "["; R.F; "]"; LEN(R.F)\r\n',
+    "sub": 'P\r\nSUB P\r\n  DIM S AS STRING * %s\r\n  S = "abc"\r\n  PRINT "["; S; "]"; LEN(S)\r\nEND SUB\r\n',
+}
+
+
+def _class(resp):
+    if not resp or resp.get("timeout"):
+        return ("none",)
+    if "panic" in resp:
+        return ("panic",)
+    if resp.get("stage") in ("parse", "lint"):
+        return ("reject",)
+    out = resp.get("stdout")
+    return ("run", out if isinstance(out, str) else str(out), str(resp.get("outcome", {}).get("k")), str(resp.get("outcome", {}).get("code")))
+
+
+def post(cases, rep, pool):
+    """a constant as the length of a fixed-length string against the same program with the value written out: the same
+    verdict and the same output, for lengths at and beyond both ends of 1..32767, in every place a length can stand"""
+    pairs = []
+    for ctx, body in LEN_CTX.items():
+        for e, v in LEN_VALUES:
+            for cs in ("N", "N%"):
+                a = "CONST %s = %s\r\n" % (cs, e) + body % "N"
+                b_ = body % str(v)
+                if ctx == "sub":
+                    # the constant of the module seen from the SUB, and a constant of the SUB itself
+                    pairs.append((ctx + "-local", (body % "N").replace("  DIM S", "  CONST %s = %s\r\n  DIM S" % (cs, e)), b_, e))
+                pairs.append((ctx, a, b_, e))
+    ra = pool.map([{"op": "run", "text": a, "budget": 100000} for _, a, _, _ in pairs], timeout=60)
+    rb = pool.map([{"op": "run", "text": b_, "budget": 100000} for _, _, b_, _ in pairs], timeout=60)
+    for (ctx, a, b_, e), x, y in zip(pairs, ra, rb):
+        if _class(x) != _class(y):
+            rep.violation({"family": "length-value", "context": ctx, "text_const": a, "text_literal": b_, "observed_const": _class(x), "observed_literal": _class(y),
+                           "expected": "the program with the constant behaves like the program with its value"},
+                          {"length-value", "ctx:" + ctx, "len:" + e}, name="length-value")
+    STATS["length_pairs"] = len(pairs)
+
+
+STATS = {}
+
+
 def run(tier, replay):
     return run_property(
         "C14", c14.cases, tier, replay,
@@ -23,4 +71,4 @@ def run(tier, replay):
         assumptions=[
             "expressions leaving the exactly representable domain are skipped",
             "a CONST whose expression fails is rejected statically with the same error kind at the CONST statement",
-        ], nontrivial=nontrivial)
+        ], nontrivial=nontrivial, post=post, extra=lambda rep, pool, tier: {"info": {"length_value_pairs": STATS.get("length_pairs", 0)}})
